@@ -177,6 +177,23 @@ def programs():
                  SET(F(V("w"), "In"), S(X=F(F(V("w"), "In"), "Y"), Y=F(F(V("w"), "In"), "X"))),
                  P(F(F(V("w"), "In"), "X")), P(F(F(V("w"), "In"), "Y")), P(F(V("w"), "K"))]}))
 
+    # && and || evaluate both operands (no short circuit): effects of the right operand always happen
+    def LG(op, l, r):
+        return {"k": "logic", "op": op, "l": l, "r": r}
+
+    def BL(v):
+        return {"k": "bool", "v": v}
+    out.append(("logic_effects", {"types": [], "funcs": {
+        "audit": FN(["x", "r"], ["i32", "bool"], "bool", [P(V("x")), RET(V("r"))])},
+        "main": [LET("a", "bool", LG("&&", BL(False), CALL("audit", L(1), BL(True)))), P(V("a")),
+                 LET("b", "bool", LG("||", BL(True), CALL("audit", L(2), BL(False)))), P(V("b")),
+                 LET("c", "bool", LG("&&", BL(True), CALL("audit", L(3), BL(True)))), P(V("c")),
+                 LET("d", "bool", LG("||", BL(False), CALL("audit", L(4), BL(False)))), P(V("d")),
+                 LET("n", "i32", L(5)),
+                 LET("e", "bool", LG("&&", C(">", V("n"), L(9)), CALL("audit", L(6), BL(True)))), P(V("e")),
+                 IF(LG("||", CALL("audit", L(7), BL(True)), CALL("audit", L(8), BL(True))), [P(STR("then"))], [P(STR("else"))]),
+                 LET("f", "bool", LG("&&", {"k": "not", "e": BL(True)}, CALL("audit", L(9), BL(True)))), P(V("f"))]}))
+
     # break / continue, nested loops, for with a computed range
     out.append(("loops", {"types": [], "funcs": {},
         "main": [LET("i", "i32", L(0)), LET("acc", "i32", L(0)),
